@@ -118,7 +118,7 @@ func (a *arrivalRecorder) orders() map[string]int {
 func genXferCases(e *Env, n int, quicOnly bool) []xferCase {
 	r := vk.NewRng(e.Seed ^ vk.HashStr(e.Prop+e.Tier))
 	var cases []xferCase
-	shapes := []string{"onefile", "manysmall", "nested", "fewchunks", "boundary", "zerolen", "dirsonly", "empty"}
+	shapes := []string{"onefile", "manysmall", "nested", "fewchunks", "boundary", "zerolen", "dirsonly", "empty", "prefixnames"}
 	for i := 0; i < n; i++ {
 		var c xferCase
 		c.ID = fmt.Sprintf("%s-%05d", e.Prop, i)
